@@ -281,7 +281,11 @@ def xsteps(what, quick=("X_U8_st4",), ops=None):
 def xvsteps(what, ops=None, tier="thorough"):
     """FlexVec<FlatVec<u8,u8>,u8>: only the 4-byte lean push finishes (766 s); the 5/6-byte
     harnesses of the crate exhaust 24 GB and are not registered."""
-    return [H("step::X_V_st4::push", 2400, 16, "every valid image <= 4 bytes x push of a FlatVec of 0..2 items; FlexVec<FlatVec<u8,u8>,u8>", what, tier=tier)]
+    out = [H("step::X_V_st4::push", 2400, 16, "every valid image <= 4 bytes x push of a FlatVec of 0..2 items; FlexVec<FlatVec<u8,u8>,u8>", what, tier=tier)]
+    if ops is None or "edit" in ops:
+        out.append(H("step::X_V_st::edit", 2700, 16, "every valid image <= 6 bytes x push of one byte into item i; FlexVec<FlatVec<u8,u8>,u8>",
+                     "editing one item of a FlexVec of FlatVecs leaves the others unchanged", tier=tier))
+    return out
 
 
 prop("C11", "FlatVec/FlatString behave as capacity-bounded Vec/String",
@@ -306,7 +310,7 @@ prop("C13", "a rejected container operation leaves the container as it was",
      vsteps("refused push/push_slice leave the FlatVec unchanged", quick=("V_U8_st", "V_U16_st"))
      + [H("step::string::str_step", 1800, 12, "every valid FlatString<u8> image <= 6 bytes", "refused push/push_str leave the FlatString unchanged")]
      + xsteps("refused FlexVec::push (no room, or the item's emplacer fails) leaves the FlexVec unchanged", ops=["push", "push_default", "push_failing"])
-     + xvsteps("push refused because the unsized item does not fit leaves the FlexVec unchanged"),
+     + xvsteps("push refused because the unsized item does not fit leaves the FlexVec unchanged", ops=["push"]),
      STEP_ASSUME)
 
 
